@@ -193,10 +193,10 @@ func sameOutcome(ok1 bool, e1 error, ok2 bool, e2 error) bool {
 // c16Inv: parts = the k constraints (each op+version) of the base range; tr describes the
 // transformation: "perm:2,0,1" | "dup:i" | "empty:i" (insert an empty constraint before index i,
 // i==k appends) | "ws:i:j" (insert the byte w before byte j of constraint i; j may equal its length).
-func c16Inv[V univers.Version[V], VR univers.VersionRange[V]](e univers.Ecosystem[V, VR], scheme, ops, v1, v2, v3, probe, tr, w string) {
+func c16Inv[V univers.Version[V], VR univers.VersionRange[V]](e univers.Ecosystem[V, VR], scheme, ops, v1, v2, v3, v4, probe, tr, w string) {
 	ol := strings.Split(ops, " ")
 	k := len(ol)
-	vs := []string{v1, v2, v3}[:k]
+	vs := []string{v1, v2, v3, v4}[:k]
 	var pv []V
 	parts := make([]string, k)
 	for i, s := range vs {
